@@ -40,6 +40,7 @@ def dispatch (op : String) : Option Handler :=
   | "dslsort" => some C09.dslsort
   | "join" => some C13.join
   | "pctidx" => some Verbs.pctidx
+  | "perrec" => some Verbs.perrec
   | "fanout" => some C20.fanout
   | "chainb" => some C04.chainb
   | "str" => some C15.str
